@@ -46,6 +46,7 @@ package eds
 //@   ensures err == nil ==> isHalfOf(in, int(axisType), axisIdx, result0)
 //@ extern (github.com/celestiaorg/celestia-node/share/shwap.AxisHalf).Extended
 //@   ensures err == nil ==> isExtOf(a, result0) && len(result0) != 0
+//@   ensures err == nil ==> len(result0) == len(a.Shares) + len(a.Shares)
 
 //@ func (*proofsCache).getAxisFromCache
 //@   property C05 C09
@@ -121,9 +122,12 @@ package eds
 //@   params eds y
 //@   ensures result == edsColBytes(eds, y) && len(result) == edsWidth(eds)
 //@   ensures forall r int :: 0 <= r && r < len(result) ==> shareOfBytes(result[r]) == shareOfBytes(edsRowBytes(eds, uint(r))[y])
+// (A-RS: an extended square has an even width - twice the original width - and its width*width cells
+// are in memory, so the width is far below 2^32)
 //@ extern (*github.com/celestiaorg/rsmt2d.ExtendedDataSquare).Width
 //@   params eds
 //@   ensures result == edsWidth(eds)
+//@   ensures mod(edsWidth(eds), 2) == 0 && edsWidth(eds) <= 4294967296
 //@ extern github.com/celestiaorg/go-square/v4/share.FromBytes
 //@   ensures err == nil ==> len(result0) == len(bytes) && (forall i int :: 0 <= i && i < len(bytes) ==> result0[i] == shareOfBytes(bytes[i]))
 
@@ -169,3 +173,22 @@ package eds
 //@   effect $EDSVerified := err == nil
 //@   checks err == nil ==> bytesEq(datahash, dahHash(deref(root))) && result0 == rsmt2d
 //@   ensures err != nil ==> result0 == nil
+
+//@ func (*Rsmt2D).Size
+//@   property C05
+//@   requires eds != nil && eds.ExtendedDataSquare != nil
+//@   ensures err == nil && result0 == int(edsWidth(eds.ExtendedDataSquare)) && result0 == edsWidth(eds.ExtendedDataSquare) && mod(result0, 2) == 0
+
+// The in-memory accessor serves a share range the same way: full extended rows, first to last row of
+// the range, into a slice made for this call, then the producer with the coordinates of From and To-1.
+//@ func (*Rsmt2D).RangeNamespaceData
+//@   property C05 C09
+//@   requires eds != nil && eds.ExtendedDataSquare != nil && from < to
+//@   callpre ExtendedDataSquare).Row: $arg1 == uint(row)
+//@   callpre shwap.RangeNamespaceDataFromShares: $arg0 == rawShares && isFresh($arg0) && $arg1 == fromCoords && $arg2 == toCoords
+//@   callpre shwap.RangeNamespaceDataFromShares: fromCoords.Row * odsSize + fromCoords.Col == from && toCoords.Row * odsSize + toCoords.Col == to - 1
+//@   loop 1: invariant idx == row - fromCoords.Row && fromCoords.Row <= row && row <= toCoords.Row + 1 && len(rawShares) == toCoords.Row - fromCoords.Row + 1 && isFresh(rawShares)
+//@   loop 1: invariant 0 <= fromCoords.Row && toCoords.Row < odsSize && odsSize == int(edsWidth(eds.ExtendedDataSquare)) / 2
+//@   loop 1: invariant forall j int :: 0 <= j && j < idx ==> len(rawShares[j]) == int(edsWidth(eds.ExtendedDataSquare))
+//@   loop 1: invariant forall j int :: 0 <= j && j < idx ==> rawShares[j] != nil ==> forall c int :: 0 <= c && c < len(rawShares[j]) ==> rawShares[j][c] == cellShare(eds.ExtendedDataSquare, fromCoords.Row + j, c)
+//@   loop 1: invariant 0 <= fromCoords.Col && fromCoords.Col < odsSize && 0 <= toCoords.Col && toCoords.Col < odsSize && fromCoords.Row * odsSize + fromCoords.Col == from && toCoords.Row * odsSize + toCoords.Col == to - 1
